@@ -280,4 +280,172 @@ theorem splitlines_join_terminated (sep : Str) (hs : IsSep sep) (ls : List Str) 
     · simp at h; subst h; intro c hc; cases hc)]
   simp [dropFinalEmpty]
 
+/-! ## 3. spelling of V30 lines: blank runs, trailing blanks, continuation dashes -/
+
+def blanks (n : Nat) : Str := List.replicate n ' '
+
+/-- the tokens `ts`, token `i` preceded by a run of `gs[i] + 1` blanks (one blank where `gs` is exhausted) -/
+def gapped : List Str → List Nat → Str
+  | [], _ => []
+  | t :: ts, gs => blanks (gs.headD 0 + 1) ++ (t ++ gapped ts gs.tail)
+
+/-- the spelling choices for one logical V30 line: lengths of the blank runs (beyond the mandatory one
+blank) before each token, number of trailing blanks, and the lengths of the pieces into which the line
+is cut for continuation (every piece but the last gets a trailing `-`, every piece the prefix `M  V30 `) -/
+structure Spell where
+  gaps : List Nat := []
+  trail : Nat := 0
+  cuts : List Nat := []
+
+/-- the text of a logical V30 line after the prefix `M  V30 ` -/
+def body (s : Spell) (ts : List Str) : Str := (gapped ts s.gaps).drop 1 ++ blanks s.trail
+
+/-- the logical V30 line with tokens `M V30 ts` -/
+def lineText (s : Spell) (ts : List Str) : Str := v30 ++ body s ts
+
+/-- cut a text into pieces of the given lengths (the last piece takes the rest; lengths beyond the end
+of the text give empty pieces, which the format also permits) -/
+def cut : List Nat → Str → List Str
+  | [], s => [s]
+  | n :: ns, s => s.take n :: cut ns (s.drop n)
+
+theorem cut_ne_nil (ns : List Nat) (s : Str) : cut ns s ≠ [] := by cases ns <;> simp [cut]
+
+theorem cut_flatten (ns : List Nat) : ∀ s : Str, (cut ns s).flatten = s := by
+  induction ns with
+  | nil => intro s; simp [cut]
+  | cons n ns ih => intro s; simp [cut, ih]
+
+/-- every way of cutting a text into pieces is a `cut` -/
+theorem cut_surjective (pieces : List Str) (hne : pieces ≠ []) :
+    cut (pieces.dropLast.map List.length) pieces.flatten = pieces := by
+  induction pieces with
+  | nil => exact absurd rfl hne
+  | cons p r ih =>
+    cases r with
+    | nil => simp [cut]
+    | cons q r =>
+      have := ih (by simp)
+      simp only [List.dropLast_cons_cons, List.map_cons, cut, List.flatten_cons, List.take_left',
+        List.drop_left', List.cons.injEq, true_and]
+      simpa using this
+
+/-- the physical lines of one logical V30 line -/
+def renderLine (s : Spell) (ts : List Str) : List Str := phys (cut s.cuts (body s ts))
+
+/-- a line the reader takes for the first part of a continued line -/
+def Cont (l : Str) : Prop := startswith l v30 = true ∧ endswith l ['-'] = true
+
+theorem splice_notCont (l : Str) (rest : List Str) (h : ¬ Cont l) :
+    splice (l :: rest) = (do let t ← splice rest; pure (l :: t)) := by
+  cases rest with
+  | nil => simp [splice]
+  | cons l₂ r =>
+    rw [splice]
+    have : (startswith l v30 && endswith l ['-']) = false := by
+      rw [Bool.eq_false_iff]; intro hc; exact h (by simpa [Cont] using hc)
+    simp [this]
+
+theorem splice_all_notCont (ls : List Str) (h : ∀ l ∈ ls, ¬ Cont l) : splice ls = .ok ls := by
+  induction ls with
+  | nil => simp [splice]
+  | cons l r ih => rw [splice_notCont l r (h l (by simp)), ih (fun x hx => h x (by simp [hx]))]; rfl
+
+/-- the reader splices the physical lines of a logical line back together, whatever the cut points,
+provided the logical line does not end in `-` (which the format forbids, since a final `-` means
+"continued") -/
+theorem splice_renderLine (s : Spell) (ts : List Str) (rest : List Str)
+    (hdash : (body s ts).getLast? ≠ some '-') :
+    splice (renderLine s ts ++ rest) = (do let t ← splice rest; pure (lineText s ts :: t)) := by
+  unfold renderLine lineText
+  have := splice_phys (cut s.cuts (body s ts)) rest (cut_ne_nil _ _) (by rw [cut_flatten]; exact hdash)
+  rw [cut_flatten] at this
+  exact this
+
+/-! ### tokens of a spelled line -/
+
+theorem rstrip_blanks (x : Str) (n : Nat) : rstrip (x ++ blanks n) = rstrip x := by
+  unfold rstrip blanks
+  congr 1
+  rw [List.reverse_append, List.reverse_replicate]
+  induction n with
+  | zero => rfl
+  | succ n ih => rw [List.replicate_succ, List.cons_append, List.dropWhile_cons]; simpa [isPySpace] using ih
+
+theorem rstrip_of_getLast (x : Str) (h : ∀ c, x.getLast? = some c → isPySpace c = false) : rstrip x = x := by
+  unfold rstrip
+  rcases List.eq_nil_or_concat x with rfl | ⟨y, c, rfl⟩
+  · rfl
+  · have hc := h c (by simp)
+    simp [List.dropWhile_cons, hc]
+
+theorem getLast_gapped (ts : List Str) (hts : ∀ t ∈ ts, Clean t) : ∀ (p : Str) (gs : List Nat),
+    (∀ c, p.getLast? = some c → isPySpace c = false) →
+    ∀ c, (p ++ gapped ts gs).getLast? = some c → isPySpace c = false := by
+  induction ts with
+  | nil => intro p gs hp c hc; exact hp c (by simpa [gapped] using hc)
+  | cons t ts ih =>
+    intro p gs hp c hc
+    have ht := hts t (by simp)
+    have : p ++ gapped (t :: ts) gs = (p ++ blanks (gs.headD 0 + 1) ++ t) ++ gapped ts gs.tail := by
+      simp [gapped]
+    rw [this] at hc
+    refine ih (fun u hu => hts u (by simp [hu])) _ _ ?_ c hc
+    intro d hd
+    rw [List.getLast?_append_of_ne_nil _ ht.1] at hd
+    exact ht.2 d (List.mem_of_getLast? hd)
+
+theorem sp_blanks (n : Nat) (r : Str) : (sp (blanks n ++ r) []).filter (· ≠ []) = (sp r []).filter (· ≠ []) := by
+  induction n with
+  | zero => rfl
+  | succ n ih => simpa [blanks, List.replicate_succ, sp] using ih
+
+theorem sp_word (t : Str) (ht : ' ' ∉ t) : ∀ (r cur : Str), sp (t ++ r) cur = sp r (t.reverse ++ cur) := by
+  induction t with
+  | nil => intro r cur; rfl
+  | cons c t ih =>
+    intro r cur
+    have hc : c ≠ ' ' := fun e => ht (by simp [e])
+    simp [sp, hc, ih (fun h => ht (by simp [h]))]
+
+theorem clean_no_blank {t : Str} (h : Clean t) : ' ' ∉ t := fun hc => by
+  have := h.2 ' ' hc; revert this; decide
+
+theorem sp_gapped (ts : List Str) (hts : ∀ t ∈ ts, Clean t) : ∀ (gs : List Nat) (cur : Str), cur ≠ [] →
+    (sp (gapped ts gs) cur).filter (· ≠ []) = cur.reverse :: ts := by
+  induction ts with
+  | nil => intro gs cur hcur; simp [gapped, sp, hcur]
+  | cons t ts ih =>
+    intro gs cur hcur
+    have ht := hts t (by simp)
+    have e1 : gapped (t :: ts) gs = ' ' :: (blanks (gs.headD 0) ++ (t ++ gapped ts gs.tail)) := by
+      simp [gapped, blanks, List.replicate_succ]
+    rw [e1]
+    simp only [sp, if_true]
+    rw [List.filter_cons_of_pos (by simpa using hcur), sp_blanks, sp_word t (clean_no_blank ht),
+      ih (fun u hu => hts u (by simp [hu])) _ _ (by simpa using ht.1)]
+    simp
+
+/-- **tokens of a spelled line** (`tokens_join_blanks`): whatever the blank runs and trailing blanks, the
+reader's tokenizer returns `M`, `V30` and the tokens -/
+theorem tokens_lineText (s : Spell) (ts : List Str) (hts : ∀ t ∈ ts, Clean t) :
+    tokens (lineText s ts) = py!"M" :: py!"V30" :: ts := by
+  have hV : Clean py!"V30" := by refine ⟨by simp, ?_⟩; decide
+  have key : ∀ (us : List Str) (gs : List Nat) (n : Nat), (∀ t ∈ us, Clean t) →
+      tokens ('M' :: (gapped us gs ++ blanks n)) = py!"M" :: us := by
+    intro us gs n hus
+    unfold tokens
+    rw [show 'M' :: (gapped us gs ++ blanks n) = (['M'] ++ gapped us gs) ++ blanks n by simp, rstrip_blanks,
+      rstrip_of_getLast _ (getLast_gapped us hus ['M'] gs (by simp; decide)), split_blank]
+    simp only [List.singleton_append, sp, Char.reduceEq, if_false]
+    rw [sp_gapped us hus gs ['M'] (by simp)]
+    rfl
+  have hline : ∃ n, lineText s ts = 'M' :: (gapped (py!"V30" :: ts) (1 :: s.gaps) ++ blanks n) := by
+    unfold lineText body
+    cases ts with
+    | nil => exact ⟨s.trail + 1, by simp [gapped, v30, blanks, List.replicate_succ]⟩
+    | cons t ts => exact ⟨s.trail, by simp [gapped, v30, blanks, List.replicate_succ]⟩
+  obtain ⟨n, hn⟩ := hline
+  rw [hn, key _ _ _ (by intro t ht; rcases List.mem_cons.mp ht with rfl | h; exacts [hV, hts t h])]
+
 end Contracts.Reader
